@@ -30,12 +30,15 @@ import (
 type Expr interface{}
 
 type (
-	EIdent  struct{ Name string }
-	EInt    struct{ V string }
-	EStr    struct{ V string }
-	EBool   struct{ V bool }
-	ENil    struct{}
-	EUnary  struct{ Op string; X Expr }
+	EIdent struct{ Name string }
+	EInt   struct{ V string }
+	EStr   struct{ V string }
+	EBool  struct{ V bool }
+	ENil   struct{}
+	EUnary struct {
+		Op string
+		X  Expr
+	}
 	EBinary struct {
 		Op   string
 		X, Y Expr
@@ -64,31 +67,34 @@ type Param struct {
 }
 
 type Clause struct {
-	Kind  string // requires ensures xensures inv modifies
-	Loop  int
-	Label string
-	Props []string
-	Src   string
-	E     Expr
-	Key   string // for modifies
-	Refs  []Expr // for modifies
-	File  string
-	Line  int
+	Kind   string // requires ensures xensures inv modifies
+	Loop   int
+	Label  string
+	Props  []string
+	Src    string
+	E      Expr
+	Key    string // for modifies
+	Refs   []Expr // for modifies
+	Rename map[string]string
+	File   string
+	Line   int
 }
 
 type Contract struct {
-	Key     string
-	Pkg     string
-	Clauses []*Clause
-	Lock    string
-	Flags   map[string]bool
-	Params  []string // for extern specs: parameter names
-	Results []string
-	File    string
-	Line    int
+	Key        string
+	Pkg        string
+	Clauses    []*Clause
+	Lock       string
+	Flags      map[string]bool
+	Params     []string // for extern specs: parameter names
+	Results    []string
+	Implements []string
+	File       string
+	Line       int
 }
 
 type Pred struct {
+	Opaque bool
 	Name   string
 	Params []Param
 	Body   Expr
@@ -210,7 +216,7 @@ type parser struct {
 }
 
 func (p *parser) peek() tok { return p.t[p.p] }
-func (p *parser) next() tok  { t := p.t[p.p]; p.p++; return t }
+func (p *parser) next() tok { t := p.t[p.p]; p.p++; return t }
 func (p *parser) isOp(v string) bool {
 	return p.t[p.p].k == "op" && p.t[p.p].v == v
 }
@@ -460,7 +466,7 @@ func (p *parser) primary() (Expr, error) {
 var clauseKW = map[string]bool{"requires": true, "ensures": true, "xensures": true, "inv": true, "modifies": true,
 	"lock": true, "pure": true, "nopanic": true, "trusted": true, "maypanic": true, "params": true, "results": true,
 	"fn": true, "pred": true, "uf": true, "ghost": true, "global": true, "axiom": true, "xmodifies": true, "reads": true,
-	"callsonly": true, "delegates": true}
+	"callsonly": true, "delegates": true, "atcall": true, "exceptional": true, "implements": true, "opaque": true}
 
 // ParseSpecLines parses the logical lines (already stripped of the //@ prefix).
 func ParseSpecLines(pkg, file string, lines []string, lineNos []int) (*SpecFile, error) {
@@ -493,6 +499,12 @@ func ParseSpecLines(pkg, file string, lines []string, lineNos []int) (*SpecFile,
 			kw, rest = l.s[:j], strings.TrimSpace(l.s[j:])
 		}
 		errf := func(e error) error { return fmt.Errorf("%s:%d: %v", file, l.n, e) }
+		opaque := false
+		if kw == "opaque" {
+			opaque = true
+			rest = strings.TrimSpace(strings.TrimPrefix(rest, "pred"))
+			kw = "pred"
+		}
 		switch kw {
 		case "fn":
 			cur = &Contract{Key: rest, Pkg: pkg, Flags: map[string]bool{}, File: file, Line: l.n}
@@ -514,7 +526,7 @@ func ParseSpecLines(pkg, file string, lines []string, lineNos []int) (*SpecFile,
 			if err != nil {
 				return nil, errf(err)
 			}
-			sf.Preds = append(sf.Preds, &Pred{Name: name, Params: ps, Body: e, Src: body, Pkg: pkg})
+			sf.Preds = append(sf.Preds, &Pred{Name: name, Params: ps, Body: e, Src: body, Pkg: pkg, Opaque: opaque})
 		case "uf":
 			op := strings.Index(rest, "(")
 			cl := strings.LastIndex(rest, ")")
@@ -529,10 +541,11 @@ func ParseSpecLines(pkg, file string, lines []string, lineNos []int) (*SpecFile,
 			}
 			sf.UFs = append(sf.UFs, u)
 		case "ghost":
-			f := strings.Fields(rest)
+			f := strings.SplitN(rest, " ", 2)
 			if len(f) != 2 || !strings.Contains(f[0], ".") {
 				return nil, errf(fmt.Errorf("bad ghost"))
 			}
+			f[1] = strings.TrimSpace(f[1])
 			dot := strings.LastIndex(f[0], ".")
 			sf.Ghosts = append(sf.Ghosts, &GhostField{Type: f[0][:dot], Field: f[0][dot+1:], Sort: f[1], Pkg: pkg})
 		case "global", "axiom":
@@ -553,7 +566,9 @@ func ParseSpecLines(pkg, file string, lines []string, lineNos []int) (*SpecFile,
 			switch kw {
 			case "lock":
 				cur.Lock = rest
-			case "pure", "nopanic", "trusted", "maypanic":
+			case "implements":
+				cur.Implements = append(cur.Implements, rest)
+			case "pure", "nopanic", "trusted", "maypanic", "exceptional":
 				cur.Flags[kw] = true
 			case "params":
 				cur.Params = strings.Fields(strings.ReplaceAll(rest, ",", " "))
@@ -576,6 +591,27 @@ func ParseSpecLines(pkg, file string, lines []string, lineNos []int) (*SpecFile,
 						c.Refs = append(c.Refs, e)
 					}
 				}
+				cur.Clauses = append(cur.Clauses, c)
+			case "callsonly":
+				c := &Clause{Kind: kw, File: file, Line: l.n, Src: rest}
+				for _, k := range strings.Split(rest, ",") {
+					if k = strings.TrimSpace(k); k != "" {
+						c.Props = append(c.Props, k) // reuse Props as the list of allowed callees
+					}
+				}
+				cur.Clauses = append(cur.Clauses, c)
+			case "atcall":
+				// atcall <calleeKey> [props] label: expr
+				f := strings.SplitN(rest, " ", 2)
+				if len(f) < 2 {
+					return nil, errf(fmt.Errorf("atcall needs a callee"))
+				}
+				c, err := parseClause(kw, strings.TrimSpace(f[1]))
+				if err != nil {
+					return nil, errf(err)
+				}
+				c.Key = f[0]
+				c.File, c.Line = file, l.n
 				cur.Clauses = append(cur.Clauses, c)
 			case "requires", "ensures", "xensures", "inv":
 				c, err := parseClause(kw, rest)
